@@ -84,6 +84,8 @@ pub fn float_pool() -> Vec<u32> {
 pub const NAME_POOL: &[&str] = &[
     "x", "y", "z", "foo", "bar", "ARG", "BIN", "n1", "echo", "true", "ls", "nosuchcmd", "a-b-1",
     "k", "v0", "tmp", "é", "日本", "naïve", "🦀x", "ß",
+    // spellings that differ only in case are different names
+    "FOO", "Foo", "fOO", "X", "Bar", "arg", "É",
 ];
 
 pub fn gen_int(r: &mut Rng) -> i32 {
@@ -340,6 +342,17 @@ pub fn gen_msg(r: &mut Rng, serial: i32) -> MsgSpec {
     }
 }
 
+/// An edge weight: mostly in [-1, 1], one in four an extreme float (NaN, the infinities, -0,
+/// the largest and smallest magnitudes): weights are compared, sorted, summed and printed.
+pub fn gen_weight(r: &mut Rng) -> u32 {
+    if r.chance(1, 4) {
+        r.pick(&[f32::NAN, f32::INFINITY, f32::NEG_INFINITY, -0.0, f32::MAX, f32::MIN, f32::MIN_POSITIVE, 1.0e-45, 0.0])
+            .to_bits()
+    } else {
+        ((r.unit() * 2.0 - 1.0) as f32).to_bits()
+    }
+}
+
 pub fn gen_graph(r: &mut Rng) -> GraphSpec {
     let n = r.below(6) as usize;
     let nodes: Vec<i32> = (0..n).map(|_| r.range(-2, 5) as i32).collect();
@@ -349,7 +362,7 @@ pub fn gen_graph(r: &mut Rng) -> GraphSpec {
             edges.push((
                 r.below(n as u64) as usize,
                 r.below(n as u64) as usize,
-                ((r.unit() * 2.0 - 1.0) as f32).to_bits(),
+                gen_weight(r),
             ));
         }
     }
@@ -533,8 +546,8 @@ pub fn family_program(r: &mut Rng, ctx: &GenCtx) -> Vec<ISpec> {
                     0..=2 => {
                         v.push(ISpec::Int(r.range(0, k as i64 + 2) as i32));
                         v.push(ISpec::Int(r.range(0, k as i64 + 2) as i32));
-                        v.push(ISpec::F(((r.unit() * 2.0 - 1.0) as f32).to_bits()));
-                        v.push(i(*r.pick(&["GRAPH.EDGE*ADD", "GRAPH.EDGE*SETWEIGHT", "GRAPH.EDGE*GETWEIGHT"])));
+                        v.push(ISpec::F(gen_weight(r)));
+                        v.push(i(*r.pick(&["GRAPH.EDGE*ADD", "GRAPH.EDGE*ADD", "GRAPH.EDGE*SETWEIGHT", "GRAPH.EDGE*GETWEIGHT"])));
                     }
                     3 => v.push(i("GRAPH.DUP")),
                     4 => {
